@@ -438,6 +438,11 @@ func (cs *clientStream) doHttpCall(transport http.RoundTripper, req *http.Reques
 
 	reply, err := transport.RoundTrip(req.WithContext(cs.ctx))
 	if err != nil {
+		if err == io.EOF {
+			// the connection was closed before any reply arrived; this must
+			// not be mistaken for a clean end of the response stream
+			err = io.ErrUnexpectedEOF
+		}
 		onReady(statusFromContextError(err), nil)
 		return
 	}
